@@ -57,10 +57,14 @@ theorem cumulative_is_round_end (e : K) (c : Nat) (h : 1 ≤ ⌊e + 1 / 2⌋₊ 
     every state vanishes. After the fix the model durations are used. -/
 theorem trailing_dropped_before_fix :
     createWithAlignment false ([⟨3, 1⟩, ⟨2, 1⟩] : List (MeanVari ℚ)) 2 [(-1, -1)] = .ok [] := by
-  sorry
+  rw [createWithAlignment, alignLoop_unknown_last false _ 2 0 0 0 [] (-1) (-1) (by norm_num)
+    (by simp) (by simp)]
+  simp
 
 theorem trailing_kept_after_fix :
     createWithAlignment true ([⟨3, 1⟩, ⟨2, 1⟩] : List (MeanVari ℚ)) 2 [(-1, -1)] = .ok [3, 2] := by
-  sorry
+  rw [createWithAlignment, alignLoop_unknown_last true _ 2 0 0 0 [] (-1) (-1) (by norm_num)
+    (by simp) (by simp)]
+  norm_num [estimateDuration, roundMax1_def, Nat.floor_eq_iff]
 
 end Jb.C09
